@@ -849,7 +849,7 @@ class Gen:
                 kind = dict(k="physconst", dop=d, v=v)
                 bl = d["dct"]["bl"]
             elif x < 0.38 and response:
-                kind = dict(k="matchreq", rqpos=r.choice([0, 1, 2]), len=r.choice([1, 1, 2]))
+                kind = dict(k="matchreq", rqpos=r.choice([0, 1, 2, 0, 1, 2, -1, -2]), len=r.choice([1, 1, 2]))
                 bl = 8 * kind["len"]
             elif x < 0.42 and response:
                 d = std(BUINT, 8, None, True)
